@@ -66,6 +66,14 @@ func Canonicalize(d *m.Design, a *m.Attr, v value.V) value.V {
 			out.A[i+1] = Canonicalize(d, res.Type.Val, v.A[i+1])
 		}
 		return out
+	case m.Union:
+		if v.K != "union" || len(v.A) != 1 {
+			return v
+		}
+		if alt := UnionAlt(res.Type, v.S); alt != nil {
+			return value.V{K: "union", S: alt.Name, A: []value.V{Canonicalize(d, alt.Attr, v.A[0])}}
+		}
+		return v
 	case m.Bytes:
 		if v.K == "string" {
 			return value.Bytes([]byte(v.S))
@@ -102,6 +110,26 @@ func Canonicalize(d *m.Design, a *m.Attr, v value.V) value.V {
 		return canonAny(v)
 	}
 	return v
+}
+
+// UnionAlt returns the alternative of a union a value names: by its design
+// name, or by the name of the Go wrapper type the generated code uses for it
+// (<UnionTypeName><AltName>), matched on the normalised suffix.
+func UnionAlt(t *m.Type, name string) *m.Field {
+	for _, f := range t.Fields {
+		if f.Name == name {
+			return f
+		}
+	}
+	var best *m.Field
+	nn := gen.Norm(name)
+	for _, f := range t.Fields {
+		fn := gen.Norm(f.Name)
+		if fn != "" && strings.HasSuffix(nn, fn) && (best == nil || len(fn) > len(gen.Norm(best.Name))) {
+			best = f
+		}
+	}
+	return best
 }
 
 // canonAny normalises values of type Any the way JSON does (numbers are floats).
@@ -458,6 +486,12 @@ func Validate(d *m.Design, a *m.Attr, v value.V, path string) []Violation {
 				out = append(out, Validate(d, res.Type.Elem, e, fmt.Sprintf("%s[%d]", path, i))...)
 			}
 		}
+	case m.Union:
+		if v.K == "union" && len(v.A) == 1 {
+			if alt := UnionAlt(res.Type, v.S); alt != nil {
+				out = append(out, Validate(d, alt.Attr, v.A[0], join(path, alt.Name))...)
+			}
+		}
 	case m.Map:
 		if v.K == "map" {
 			for i := 0; i+1 < len(v.A); i += 2 {
@@ -572,6 +606,16 @@ func Match(d *m.Design, a *m.Attr, sent, got value.V, wire bool, path string) st
 			}
 		}
 		return ""
+	case m.Union:
+		if sent.K != "union" || got.K != "union" || len(sent.A) != 1 || len(got.A) != 1 {
+			break
+		}
+		if sent.S != got.S {
+			return fmt.Sprintf("%s: union alternative %q arrived as alternative %q (%s)", orRoot(path), sent.S, got.S, got.Canon())
+		}
+		if alt := UnionAlt(res.Type, sent.S); alt != nil {
+			return Match(d, alt.Attr, sent.A[0], got.A[0], wire, path+"."+alt.Name)
+		}
 	case m.Array:
 		if sent.K != "array" || got.K != "array" {
 			break
